@@ -57,7 +57,10 @@ pub fn run(out: &mut Out, thorough: bool, seed: u64, _extra: &[String]) {
         let mut qs = qs;
         // (the prime dropped SECOND: the source then already carries a correction factor != 1 while q^-1 mod t = 1 for this step)
         if fam1 && qs.len() >= 4 { if let Some(p) = prime_one_mod(n, t, 50, &qs) { let mid = qs.len() - 3; qs[mid] = p; } }
-        let s = match make(scheme, n, &qs, t, true, None) { Some(s) => s, None => continue };
+        // every fourth BFV/BGV program runs on the shared parameter families of C02 (a coefficient prime below the plain modulus, wide plain moduli)
+        let s = if scheme != SchemeType::CKKS && pi % 4 == 2 { match (0..20).find_map(|_| setup(&mut r, thorough, scheme).filter(|s| s.n <= 16 && s.levels().len() >= 2 && s.levels().iter().any(|p| s.level_qs(p).iter().any(|&q| q < s.t)))) { Some(s) => s, None => continue } }
+                else { match make(scheme, n, &qs, t, true, None) { Some(s) => s, None => continue } };
+        let (n, t) = (s.n, s.t);
         let ev = &s.evaluator;
         let relin = s.keygen.create_relin_keys(false);
         let gal = s.keygen.create_galois_keys(false);
